@@ -147,6 +147,13 @@ theorem copy_index_transparent (s : Spec.State) (σ : KVS) (hw : WF s) (hr : Rep
     r.1 = sp.1 ∧ Rep sp.2 r.2.1 ∧ WF sp.2 :=
   createCollectionByQuery_exact_any_plan likeFn fnFam s σ hw hr c hc q fresh hdomain hskip hlimit
 
+/-- (translated, regenerated from the source on every run) **`removeNotCriteria` as the current source writes it** - how
+    the planner pushes a negation into a comparison leaf before it looks for ranges - is the model's `negLeaf`:
+    `not (f = x)` becomes `f < x or f > x`, `<` / `>=` and `<=` / `>` swap. -/
+theorem source_negation_table_is_the_models (op : CmpOp) (f : Bytes) (x : Operand) :
+    Translated.critOf (Gen.removeNotCriteria ⟨⟨Translated.opName op, f, x⟩⟩) = some (negLeaf op f x) :=
+  Translated.removeNotCriteria_eq op f x
+
 /-- (translated, regenerated from the source on every run) **`unaryCriteriaToRange` as the current source writes it** -
     the table that turns a comparison on the indexed field into the range the index is scanned over - is the model's
     `toRange`, for every operator and operand (field references and `$`-strings give no range, a nil bound only for
@@ -162,7 +169,7 @@ end CV.Props.C02
 namespace CV.Props.C02
 
 /-- (facts, regenerated from the source on every run) **The source text the model transcribes is the text of the
-    current source**: the bodies (comments and layout removed) of the 21 functions the model behind C02 was written from and
+    current source**: the bodies (comments and layout removed) of the 20 functions the model behind C02 was written from and
     validated against.  Any edit of one of them breaks this theorem at build time; the check then searches with the
     property's own oracles for a failing input, and reports `no-failing-input-found` if it finds none: the model then
     has to be re-validated against the new text (and this block regenerated). -/
@@ -179,7 +186,6 @@ theorem source_decision_logic : CV.Facts.logicC02 = [
   "clover.NotFlattenVisitor.VisitBinaryCriteria: { return &query.BinaryCriteria{ OpType: c.OpType, C1: c.C1.Accept(v).(query.Criteria), C2: c.C2.Accept(v).(query.Criteria), } }", 
   "clover.NotFlattenVisitor.VisitNotCriteria: { switch criteriaType := c.C.(type) { case *query.UnaryCriteria: return v.removeNotCriteria(c) case *query.BinaryCriteria: opType := criteriaType.OpType if opType == query.LogicalAnd { opType = query.LogicalOr } else { opType = query.LogicalAnd } return &query.BinaryCriteria{ OpType: opType, C1: v.VisitNotCriteria(&query.NotCriteria{C: criteriaType.C1}).(query.Criteria), C2: v.VisitNotCriteria(&query.NotCriteria{C: criteriaType.C2}).(query.Criteria), } case *query.NotCriteria: return criteriaType.C } return c }", 
   "clover.NotFlattenVisitor.VisitUnaryCriteria: { return c }", 
-  "clover.NotFlattenVisitor.removeNotCriteria: { innerNode := c.C unaryCriteria := innerNode.(*query.UnaryCriteria) switch unaryCriteria.OpType { case query.EqOp: return &query.BinaryCriteria{ OpType: query.LogicalOr, C1: &query.UnaryCriteria{ OpType: query.LtOp, Value: unaryCriteria.Value, Field: unaryCriteria.Field, }, C2: &query.UnaryCriteria{ OpType: query.GtOp, Field: unaryCriteria.Field, Value: unaryCriteria.Value, }, } case query.LtOp: return &query.UnaryCriteria{ OpType: query.GtEqOp, Value: unaryCriteria.Value, Field: unaryCriteria.Field, } case query.LtEqOp: return &query.UnaryCriteria{ OpType: query.GtOp, Field: unaryCriteria.Field, Value: unaryCriteria.Value, } case query.GtOp: return &query.UnaryCriteria{ OpType: query.LtEqOp, Value: unaryCriteria.Value, Field: unaryCriteria.Field, } case query.GtEqOp: return &query.UnaryCriteria{ OpType: query.LtOp, Value: unaryCriteria.Value, Field: unaryCriteria.Field, } } return c }", 
   "clover.iterNode.Run: { if nd.idxQuery != nil { return nd.iterateIndex(tx) } return nd.iterateFullCollection(tx) }", 
   "clover.iterNode.iterateFullCollection: { prefix := []byte(getDocumentKeyPrefix(nd.collection)) return iteratePrefix(prefix, tx, func(item store.Item) error { doc, err := d.Decode(item.Value) if err != nil { return err } if nd.filter == nil || nd.filter.Satisfy(doc) { return nd.CallNext(doc) } return nil }) }", 
   "clover.iterNode.iterateIndex: { iterFunc := func(docId string) error { doc, err := getDocumentById(nd.collection, docId, tx) if err != nil || doc == nil { return err } if nd.filter == nil || nd.filter.Satisfy(doc) { return nd.CallNext(doc) } return nil } err := nd.idxQuery.Run(iterFunc) return err }", 
